@@ -22,6 +22,7 @@
 #include "memwrapper.h"
 #include <stdio.h>
 #include <math.h>
+#include <float.h>
 #include <time.h>
 
 /*
@@ -67,14 +68,16 @@ void shrink(matrix *x, double delta)
   }
 }
 
-/* Largest coordinate distance of a vertex from the best one, relative to 1+|coordinate| */
+/* Largest coordinate distance of a vertex from the best one, beyond what the
+ * floating point spacing at that coordinate makes unavoidable
+ */
 static double simplex_extent(matrix *x)
 {
   size_t i, j;
   double d, ext = 0.f;
   for(i = 1; i < x->row; i++){
     for(j = 0; j < x->col-1; j++){
-      d = fabs(x->data[i][j]-x->data[0][j])/(1.f+fabs(x->data[0][j]));
+      d = fabs(x->data[i][j]-x->data[0][j]) - 8.f*DBL_EPSILON*fabs(x->data[0][j]);
       if(d > ext)
         ext = d;
     }
